@@ -106,7 +106,7 @@ StrongC(S) == UNION {GroupC(S, g) : g \in {h \in Nodes(S) : Merged(S, h)}}   \* 
 (* instances                                                               *)
 Bit(p, k) == (p \div (2 ^ (k - 1))) % 2
 SizeOf(S, p) == LET ns == Sorted(AllIns(S) \cup AllOuts(S))
-                IN  [n \in SeqSet(ns) |-> 1 + Bit(p, CHOOSE k \in 1..Len(ns) : ns[k] = n)]
+                IN  TLCEval([n \in SeqSet(ns) |-> 1 + Bit(p, CHOOSE k \in 1..Len(ns) : ns[k] = n)])
 
 Cat11 == << <<<<0>>>>, <<<<1>>>>, <<<<-1>>>>, <<<<2>>>>, <<<<-2>>>>, <<<<1>>>> >>
 Cat12 == << <<<<1,0>>>>, <<<<0,1>>>>, <<<<1,-1>>>>, <<<<0,2>>>>, <<<<-2,1>>>>, <<<<0,0>>>> >>
@@ -118,8 +118,10 @@ CatBlock(r, c, k) == IF r = 1 THEN (IF c = 1 THEN Cat11[k] ELSE Cat12[k])
 NCat == 6
 
 Gen(o, i, sd, r, c) ==
-  [rr \in 1..r |-> [cc \in 1..c |->
-      ((Idx(o) * 7 + Idx(i) * 13 + rr * 5 + cc * 3 + sd * 11 + rr * cc * sd + Idx(o) * Idx(i) * (sd + 1)) % 5) - 2]]
+  LET io == Idx(o)
+      ii == Idx(i)
+  IN  Mk(r, c, LAMBDA rr, cc :
+        ((io * 7 + ii * 13 + rr * 5 + cc * 3 + sd * 11 + rr * cc * sd + io * ii * (sd + 1)) % 5) - 2)
 
 CPairs(S) == {p \in Cpl(S) \X Cpl(S) : p[2] \in S[Prod(S, p[1])].ins}     \* blocks of B
 AllPairs == [k \in 1..(Len(Names) * Len(Names)) |->
@@ -127,14 +129,14 @@ AllPairs == [k \in 1..(Len(Names) * Len(Names)) |->
 PairSeq(S) == SelectSeq(AllPairs, LAMBDA p : p \in CPairs(S))              \* in sorted order
 
 Jac(S, sz, cb, sd) ==
-  [o \in AllOuts(S) |-> [i \in S[Prod(S, o)].ins |->
+  TLCEval([o \in AllOuts(S) |-> TLCEval([i \in S[Prod(S, o)].ins |->
       IF <<o, i>> \in CPairs(S) THEN CatBlock(sz[o], sz[i], cb[<<o, i>>])
-      ELSE Gen(o, i, sd, sz[o], sz[i])]]
+      ELSE Gen(o, i, sd, sz[o], sz[i])])])
 
 \* J[o][v], a zero block when v is not an input of the discipline producing o
 JB(S, sz, J, o, v) == IF v \in S[Prod(S, o)].ins THEN J[o][v] ELSE Zero(sz[o], sz[v])
 BlockOf(S, sz, J, rows, cols) ==
-  BlockMat([r \in 1..Len(rows) |-> [c \in 1..Len(cols) |-> JB(S, sz, J, rows[r], cols[c])]])
+  BlockMat(TLCEval([r \in 1..Len(rows) |-> TLCEval([c \in 1..Len(cols) |-> JB(S, sz, J, rows[r], cols[c])])]))
 
 RECURSIVE OffsetOf(_, _, _)
 OffsetOf(sz, seq, n) == IF seq[1] = n THEN 0 ELSE sz[seq[1]] + OffsetOf(sz, Tail(seq), n)
@@ -154,7 +156,8 @@ ClosedForm(S, sz, J) ==
       dydx == IF Nilpotent(B) THEN Neumann(B, A, n - 1)
               ELSE MMul(InvUnimod(MSub(Ident(n), B)), A)
       T(o) == MAdd(BlockOf(S, sz, J, <<o>>, X), MMul(BlockOf(S, sz, J, <<o>>, C), dydx))
-  IN  [o \in AllOuts(S) |-> [x \in DIn(S) |-> SubMat(T(o), 0, sz[o], OffsetOf(sz, X, x), sz[x])]]
+  IN  TLCEval([o \in AllOuts(S) |->
+         LET To == T(o) IN TLCEval([x \in DIn(S) |-> SubMat(To, 0, sz[o], OffsetOf(sz, X, x), sz[x])])])
 
 Build(t, p, cb, sd) ==
   LET S == Topo(t)
@@ -172,74 +175,85 @@ Unimod(t, p, cb) ==
       sz == SizeOf(S, p)
       C == Sorted(Cpl(S))
       \* the seed does not enter the coupling blocks
-      B == BlockMat([r \in 1..Len(C) |-> [c \in 1..Len(C) |->
+      B == BlockMat(TLCEval([r \in 1..Len(C) |-> TLCEval([c \in 1..Len(C) |->
               IF <<C[r], C[c]>> \in CPairs(S) THEN CatBlock(sz[C[r]], sz[C[c]], cb[<<C[r], C[c]>>])
-              ELSE Zero(sz[C[r]], sz[C[c]])]])
+              ELSE Zero(sz[C[r]], sz[C[c]])])]))
   IN  IsUnimodular(MSub(Ident(NRows(B)), B))
 
 ----------------------------------------------------------------------------
 (* (B) the code-shaped assembly                                            *)
 
-\* mda_derivatives._replace_strongly_coupled: inputs of the node standing for a group
-Hidden(S, g) == IF Rules = "asread" THEN StrongC(S) ELSE GroupC(S, g)
-NodeIns(S, g)  == IF Merged(S, g) THEN GIns(S, g) \ Hidden(S, g) ELSE GIns(S, g)
-NodeOuts(S, g) == GOuts(S, g)
-REdge(S, g, h) == g # h /\ NodeOuts(S, g) \cap NodeIns(S, h) # {}
-IO(S, g, h) == NodeOuts(S, g) \cap NodeIns(S, h)
-RECURSIVE RReachN(_, _, _, _)
-RReachN(S, g, h, k) == g = h \/ (k > 0 /\ \E m \in Nodes(S) : REdge(S, g, m) /\ RReachN(S, m, h, k - 1))
-RReach(S, g, h) == RReachN(S, g, h, Len(S))
+\* mda_derivatives._replace_strongly_coupled: the graph in which a node stands for each strongly
+\* coupled group; the inputs of such a node hide the strong couplings.  Computed once per instance.
+Reduced(S) ==
+  LET N == Nodes(S)
+      sc == StrongC(S)
+      mg == {g \in N : Merged(S, g)}
+      hidden(g) == IF Rules = "asread" THEN sc ELSE GroupC(S, g)
+      nin  == TLCEval([g \in N |-> IF g \in mg THEN GIns(S, g) \ hidden(g) ELSE GIns(S, g)])
+      nout == TLCEval([g \in N |-> GOuts(S, g)])
+      E == {e \in N \X N : e[1] # e[2] /\ nout[e[1]] \cap nin[e[2]] # {}}
+      \* at most 3 nodes: paths of length <= 2
+      reach == TLCEval([g \in N |-> {h \in N : \/ g = h
+                                               \/ <<g, h>> \in E
+                                               \/ \E m \in N : <<g, m>> \in E /\ <<m, h>> \in E}])
+  IN  [N |-> N, mg |-> mg, nin |-> nin, nout |-> nout, E |-> E, reach |-> reach,
+       \* the couplings added to the differentiated inputs/outputs of the members of a group
+       added |-> TLCEval([g \in N |-> IF Rules = "asread" THEN sc ELSE GroupC(S, g)]),
+       grp |-> TLCEval([d \in 1..Len(S) |-> Group(S, d)]),
+       cpl |-> Cpl(S)]
 
 \* chain_rule.traverse_add_diff_io on the reduced graph + the per-member step of
 \* traverse_add_diff_io_mda; returns the differentiated inputs/outputs to ADD to each
 \* discipline and the minimal couplings
-Traverse(S, ri, ro) ==
-  LET N == Nodes(S)
-      inSrc  == {g \in N : NodeIns(S, g) \cap ri # {}}
-      outSrc == {g \in N : NodeOuts(S, g) \cap ro # {}}
-      E  == {e \in N \X N : REdge(S, e[1], e[2])}
-      Fw == {e \in E : \E s \in inSrc  : RReach(S, s, e[1])}       \* edge_bfs from the input sources
-      Bw == {e \in E : \E s \in outSrc : RReach(S, e[2], s)}       \* edge_bfs on the reversed graph
+Traverse(S, R, ri, ro) ==
+  LET N == R.N
+      IOe(e) == R.nout[e[1]] \cap R.nin[e[2]]                      \* the "io" attribute of an edge
+      inSrc  == {g \in N : R.nin[g] \cap ri # {}}
+      outSrc == {g \in N : R.nout[g] \cap ro # {}}
+      Fw == {e \in R.E : \E s \in inSrc  : e[1] \in R.reach[s]}    \* edge_bfs from the input sources
+      Bw == {e \in R.E : \E s \in outSrc : s \in R.reach[e[2]]}    \* edge_bfs on the reversed graph
       Touched(F) == {g \in N : \E e \in F : e[1] = g \/ e[2] = g}
-      InsOf(F, g)  == UNION {IO(S, e[1], e[2]) : e \in {f \in F : f[2] = g}}
-      OutsOf(F, g) == UNION {IO(S, e[1], e[2]) : e \in {f \in F : f[1] = g}}
+      InsOf(F, g)  == UNION {IOe(e) : e \in {f \in F : f[2] = g}}
+      OutsOf(F, g) == UNION {IOe(e) : e \in {f \in F : f[1] = g}}
       both == Touched(Fw) \cap Touched(Bw)
-      di(g) == InsOf(Fw, g) \cap InsOf(Bw, g)
-      do(g) == OutsOf(Fw, g) \cap OutsOf(Bw, g)
-      initI(g) == NodeIns(S, g) \cap ri
-      initO(g) == NodeOuts(S, g) \cap ro
+      di == TLCEval([g \in N |-> InsOf(Fw, g) \cap InsOf(Bw, g)])
+      do == TLCEval([g \in N |-> OutsOf(Fw, g) \cap OutsOf(Bw, g)])
+      initI(g) == R.nin[g] \cap ri
+      initO(g) == R.nout[g] \cap ro
       special == inSrc \cap outSrc                                  \* _merge_diff_io_special
       nodes == both \cup special
-      mi(g) == (IF g \in both THEN di(g) \cup (IF do(g) # {} THEN initI(g) ELSE {}) ELSE {})
-               \cup (IF g \in special THEN initI(g) ELSE {})
-      mo(g) == (IF g \in both THEN do(g) \cup (IF di(g) # {} THEN initO(g) ELSE {}) ELSE {})
-               \cup (IF g \in special THEN initO(g) ELSE {})
-      added(g) == IF Rules = "asread" THEN StrongC(S) ELSE GroupC(S, g)
-      dI(d) == LET g == Group(S, d) IN
+      mi == TLCEval([g \in N |->
+               (IF g \in both THEN di[g] \cup (IF do[g] # {} THEN initI(g) ELSE {}) ELSE {})
+               \cup (IF g \in special THEN initI(g) ELSE {})])
+      mo == TLCEval([g \in N |->
+               (IF g \in both THEN do[g] \cup (IF di[g] # {} THEN initO(g) ELSE {}) ELSE {})
+               \cup (IF g \in special THEN initO(g) ELSE {})])
+      dI(d) == LET g == R.grp[d] IN
                IF g \notin nodes THEN {}
-               ELSE IF Merged(S, g) THEN (mi(g) \cup added(g)) \cap S[d].ins ELSE mi(g)
-      dO(d) == LET g == Group(S, d) IN
+               ELSE IF g \in R.mg THEN (mi[g] \cup R.added[g]) \cap S[d].ins ELSE mi[g]
+      dO(d) == LET g == R.grp[d] IN
                IF g \notin nodes THEN {}
-               ELSE IF Merged(S, g) THEN (mo(g) \cup added(g)) \cap S[d].outs ELSE mo(g)
-      names == UNION {mi(g) \cup mo(g) : g \in nodes} \cup UNION {dI(d) \cup dO(d) : d \in 1..Len(S)}
-  IN  [add |-> [d \in 1..Len(S) |-> [i |-> dI(d), o |-> dO(d)]],
-       mc |-> names \cap Cpl(S)]
+               ELSE IF g \in R.mg THEN (mo[g] \cup R.added[g]) \cap S[d].outs ELSE mo[g]
+      add == TLCEval([d \in 1..Len(S) |-> [i |-> dI(d), o |-> dO(d)]])
+      names == UNION {mi[g] \cup mo[g] : g \in nodes} \cup UNION {add[d].i \cup add[d].o : d \in 1..Len(S)}
+  IN  [add |-> add, mc |-> names \cap R.cpl]
 
 Linearized(dd, d) == dd[d].i # {} /\ dd[d].o # {}
 \* the block d o / d v is present in the Jacobian of the discipline producing o
-HasJ(S, dd, o, v) == LET d == Prod(S, o) IN Linearized(dd, d) /\ o \in dd[d].o /\ v \in dd[d].i
-HasRow(S, dd, o)  == LET d == Prod(S, o) IN Linearized(dd, d) /\ o \in dd[d].o
+HasJ(I, dd, o, v) == LET d == I.prod[o] IN Linearized(dd, d) /\ o \in dd[d].o /\ v \in dd[d].i
+HasRow(I, dd, o)  == LET d == I.prod[o] IN Linearized(dd, d) /\ o \in dd[d].o
 
 \* _get_jacobian_generator + _assemble_jacobian_as_matrix
 Assemble(I, dd, rows, cols, residual) ==
-  BlockMat([r \in 1..Len(rows) |-> [c \in 1..Len(cols) |->
+  BlockMat(TLCEval([r \in 1..Len(rows) |-> TLCEval([c \in 1..Len(cols) |->
      LET o == rows[r]
          v == cols[c]
          z == Zero(I.size[o], I.size[v])
      IN  IF residual /\ o = v
-         THEN (IF HasJ(I.S, dd, o, v) THEN MSub(I.J[o][v], Ident(I.size[o]))   \* self-coupled: J - I
+         THEN (IF HasJ(I, dd, o, v) THEN MSub(I.J[o][v], Ident(I.size[o]))   \* self-coupled: J - I
                ELSE MNeg(Ident(I.size[o])))                                    \* -I on the residual diagonal
-         ELSE (IF HasJ(I.S, dd, o, v) THEN I.J[o][v] ELSE z)]])
+         ELSE (IF HasJ(I, dd, o, v) THEN I.J[o][v] ELSE z)])]))
 
 NFun(I, fs) == Dim(I.size, fs)
 
@@ -250,25 +264,43 @@ Total(I, dd, cpl, ri, ro, mode) ==
       ys == Sorted(cpl)
       m  == IF mode # "auto" THEN mode
             ELSE IF Dim(I.size, xs) <= Dim(I.size, fs) THEN "direct" ELSE "adjoint"
+      dRdx == Assemble(I, dd, ys, xs, TRUE)
+      dRdy == Assemble(I, dd, ys, ys, TRUE)
+      \* direct: dy/dx = dRdy^-1 (-dRdx), one solve per column of dRdx, shared by all functions
+      dydx == MMul(InvUnimod(dRdy), MNeg(dRdx))
+      \* adjoint: the matrix handed to the solver is dRdy^T
+      invT == InvUnimod(MT(dRdy))
+      dRdxT == MT(dRdx)
       dFdx(f) == Assemble(I, dd, <<f>>, xs, FALSE)
       full(f) ==
         IF ys = <<>> THEN dFdx(f)                         \* no coupling involved (repaired rule)
-        ELSE LET dRdx == Assemble(I, dd, ys, xs, TRUE)
-                 dRdy == Assemble(I, dd, ys, ys, TRUE)
-                 dFdy == Assemble(I, dd, <<f>>, ys, FALSE)
+        ELSE LET dFdy == Assemble(I, dd, <<f>>, ys, FALSE)
              IN  IF m = "direct"
-                 THEN \* dy/dx = dRdy^-1 (-dRdx);  dF/dx + dF/dy dy/dx
-                      MAdd(dFdx(f), MMul(dFdy, MMul(InvUnimod(dRdy), MNeg(dRdx))))
+                 THEN \* dF/dx + dF/dy dy/dx
+                      MAdd(dFdx(f), MMul(dFdy, dydx))
                  ELSE \* adjoint_i = (dRdy^T)^-1 (-dFdy[i,:]^T);  row i = dFdx[i,:] + (dRdx^T adjoint_i)^T
-                      MAdd(dFdx(f), MT(MMul(MT(dRdx), MMul(InvUnimod(MT(dRdy)), MNeg(MT(dFdy))))))
-  IN  [f \in ro |-> [x \in ri |-> SubMat(full(f), 0, I.size[f], OffsetOf(I.size, xs, x), I.size[x])]]
+                      MAdd(dFdx(f), MT(MMul(dRdxT, MMul(invT, MNeg(MT(dFdy))))))
+  IN  TLCEval([f \in ro |->
+         LET Tf == full(f) IN
+         TLCEval([x \in ri |-> SubMat(Tf, 0, I.size[f], OffsetOf(I.size, xs, x), I.size[x])])])
+
+\* the full request on a fresh assembly, in both modes (for SubsetIndependence)
+WithAll(I0) ==
+  LET I == [key |-> I0.key, topo |-> I0.topo, S |-> I0.S, size |-> I0.size, J |-> I0.J,
+            nilp |-> I0.nilp, cf |-> I0.cf,
+            R |-> Reduced(I0.S), prod |-> TLCEval([o \in AllOuts(I0.S) |-> Prod(I0.S, o)])]
+      tr == Traverse(I.S, I.R, DIn(I.S), AllOuts(I.S))
+  IN  [key |-> I.key, topo |-> I.topo, S |-> I.S, R |-> I.R, prod |-> I.prod, size |-> I.size, J |-> I.J,
+       nilp |-> I.nilp, cf |-> I.cf,
+       allD |-> Total(I, tr.add, tr.mc, DIn(I.S), AllOuts(I.S), "direct"),
+       allA |-> Total(I, tr.add, tr.mc, DIn(I.S), AllOuts(I.S), "adjoint")]
 
 \* why the code as read raises (first reason in the order of total_derivatives)
 Raises(I, dd, cpl, ri, ro) ==
   IF \E v \in ri : ~ \E d \in 1..Len(I.S) : Linearized(dd, d) /\ v \in dd[d].i
   THEN "unknown_size"          \* compute_sizes: "Failed to determine the size of input variable"
   ELSE IF cpl = {} THEN "empty_couplings"     \* _assemble_jacobian_as_matrix: function_sizes[0]
-  ELSE IF \E o \in cpl \cup ro : ~HasRow(I.S, dd, o) THEN "not_linearized"   \* disciplines[f].jac[f]
+  ELSE IF \E o \in cpl \cup ro : ~HasRow(I, dd, o) THEN "not_linearized"   \* disciplines[f].jac[f]
   ELSE "none"
 
 ----------------------------------------------------------------------------
@@ -284,7 +316,7 @@ Init ==
        /\ p < 2 ^ Cardinality(AllIns(Topo(t)) \cup AllOuts(Topo(t)))
        /\ \E cb \in [CPairs(Topo(t)) -> Choices] :
             /\ Unimod(t, p, cb)
-            /\ \E sd \in Seeds : inst = Build(t, p, cb, sd)
+            /\ \E sd \in Seeds : inst = WithAll(Build(t, p, cb, sd))
   /\ dio = NoDio(inst.S)
   /\ last = <<{}, {}>>
   /\ mc = {}
@@ -295,9 +327,9 @@ Init ==
 Request(ri, ro, mode) ==
   LET S == inst.S
       fresh == last # <<ri, ro>>                       \* _compute_diff_ios_and_couplings
-      tr == Traverse(S, ri, ro)
-      nd == IF fresh THEN [d \in 1..Len(S) |-> [i |-> dio[d].i \cup tr.add[d].i,
-                                                o |-> dio[d].o \cup tr.add[d].o]]
+      tr == Traverse(S, inst.R, ri, ro)
+      nd == IF fresh THEN TLCEval([d \in 1..Len(S) |-> [i |-> dio[d].i \cup tr.add[d].i,
+                                                        o |-> dio[d].o \cup tr.add[d].o]])
             ELSE dio
       nm == IF fresh THEN tr.mc ELSE mc
       e  == IF Rules = "asread" THEN Raises(inst, nd, nm, ri, ro) ELSE "none"
@@ -355,20 +387,16 @@ AssembledIsClosedForm ==
 SubsystemUnimodular ==
   (Answered /\ mc # {}) => IsUnimodular(Assemble(inst, dio, Sorted(mc), Sorted(mc), TRUE))
 
+\* the other mode gives the same blocks; "auto" is one of the two
 DirectEqAdjoint ==
-  Answered => Total(inst, dio, mc, RI, RO, "direct") = Total(inst, dio, mc, RI, RO, "adjoint")
-
-AutoIsOne ==
-  Answered => Total(inst, dio, mc, RI, RO, "auto") \in
-                 {Total(inst, dio, mc, RI, RO, "direct"), Total(inst, dio, mc, RI, RO, "adjoint")}
-
-\* Sub(Total(all)) = Total(sub): the full request on a fresh assembly, restricted
-SubsetIndependence ==
   Answered =>
-    LET S == inst.S
-        tr == Traverse(S, DIn(S), AllOuts(S))
-        all == Total(inst, tr.add, tr.mc, DIn(S), AllOuts(S), RM)
-    IN  \A f \in RO : \A x \in RI : tot[f][x] = all[f][x]
+    IF RM = "auto"
+    THEN tot \in {Total(inst, dio, mc, RI, RO, "direct"), Total(inst, dio, mc, RI, RO, "adjoint")}
+    ELSE tot = Total(inst, dio, mc, RI, RO, IF RM = "direct" THEN "adjoint" ELSE "direct")
+
+\* Sub(Total(all)) = Total(sub): the full request on a fresh assembly (both modes), restricted
+SubsetIndependence ==
+  Answered => \A f \in RO : \A x \in RI : (tot[f][x] = inst.allD[f][x] /\ tot[f][x] = inst.allA[f][x])
 
 \* a function that no path links to a variable has a zero block of the right shape
 DReach(S, x, f) == \E d \in 1..Len(S) : x \in S[d].ins /\ Reach(S, d, Prod(S, f))
@@ -382,7 +410,7 @@ Shapes ==
 NoRaise == err = "none"
 
 \* the minimal couplings are a cache of the traversal for the last request
-CacheCoherent == Len(hist) > 0 => mc = Traverse(inst.S, last[1], last[2]).mc
+CacheCoherent == Len(hist) > 0 => mc = Traverse(inst.S, inst.R, last[1], last[2]).mc
 
 ----------------------------------------------------------------------------
 (* records for the replay on the real code                                 *)
